@@ -556,7 +556,17 @@ func (ex *Explorer) runPath(c *Ctx, fn *ssa.Function) {
 				if ex.Verbose {
 					fmt.Fprintf(os.Stderr, "UNWIND %s choices=%v\n", ex.harness, c.choices)
 				}
-			case "budget", "deadlock":
+			case "deadlock":
+				// the harness blocks forever: a violation, replayed natively against a time limit
+				c.st.Panicked++
+				site := "?"
+				if c.curFrame != nil {
+					site = c.curFrame.fn.String()
+				}
+				ex.mu.Unlock()
+				ex.handleDeadlock(c, "deadlock:"+site, p.Msg)
+				ex.mu.Lock()
+			case "budget":
 				c.st.BudgetCut++
 				ex.res.Unsupported[p.Kind+": "+p.Msg]++
 			case "bound":
@@ -602,6 +612,22 @@ func (ex *Explorer) runPath(c *Ctx, fn *ssa.Function) {
 
 // handlePanic: a Go panic escaped the harness. That is a violation of the
 // implicit "no panic" obligation unless it lies inside a known region.
+func (ex *Explorer) handleDeadlock(c *Ctx, key, msg string) {
+	c.st.Obligations++
+	ex.noteObligation(c, key, "sat")
+	if regions := ex.regionsFor(c, key); len(regions) > 0 {
+		for _, r := range regions {
+			ex.noteKnown(r.kf, c, c.model)
+		}
+		return
+	}
+	m := c.model
+	if m == nil {
+		_, m, _ = c.S.CheckPC(c.pc, nil, true)
+	}
+	ex.noteViolation(c, key, "deadlock: "+msg, m)
+}
+
 func (ex *Explorer) handlePanic(c *Ctx, p *goPanic) {
 	key := "panic:" + p.Kind + "@" + p.Site
 	c.st.Obligations++
